@@ -121,6 +121,8 @@ type Resp struct {
 	Body    []byte
 	Close   bool
 	Raw     []byte // the bytes read off the wire for this response (diagnostics)
+	// Informational: status codes of the 1xx responses that preceded this one
+	Informational []int
 }
 
 // Conn is a raw keep-alive client connection.
@@ -170,6 +172,15 @@ func (c *Conn) Read(method string) (*Resp, error) {
 	if err != nil {
 		return nil, err
 	}
+	// informational responses (100 Continue, 103 Early Hints ...) precede the final one
+	var informational []int
+	for resp.StatusCode >= 100 && resp.StatusCode < 200 && resp.StatusCode != 101 && len(informational) < 8 {
+		informational = append(informational, resp.StatusCode)
+		resp.Body.Close()
+		if resp, err = http.ReadResponse(c.br, &http.Request{Method: method}); err != nil {
+			return nil, err
+		}
+	}
 	body, err := io.ReadAll(resp.Body)
 	resp.Body.Close()
 	if err != nil {
@@ -177,7 +188,7 @@ func (c *Conn) Read(method string) (*Resp, error) {
 	}
 	raw := append([]byte(nil), c.raw.Bytes()...)
 	c.raw.Reset()
-	return &Resp{Status: resp.StatusCode, Proto: resp.Proto, Header: resp.Header, Trailer: resp.Trailer, Body: body, Close: resp.Close, Raw: raw}, nil
+	return &Resp{Status: resp.StatusCode, Proto: resp.Proto, Header: resp.Header, Trailer: resp.Trailer, Body: body, Close: resp.Close, Raw: raw, Informational: informational}, nil
 }
 
 // Request builds a minimal raw HTTP/1.1 request.
